@@ -21,6 +21,8 @@ the buffer is an ArrayVec<u8, 255>, next_label refuses an empty non-terminal lab
 name without the terminating null label.
 (shared) the subdomain relation Name::eq_or_subdomain_of compares whole labels right to left through Label::eq, never raw
 wire octets (a length octet inside a label must not be mistaken for a label boundary).
+(shared) octet-level ASCII case folding (eq_ignore_ascii_case, to/make_ascii_lowercase on octets) is called only from the
+name-label code: RDATA outside embedded names is compared octet for octet.
 Not decided: round trip and total-order laws on arbitrary names (value-level).
 """
 ASSUMPTIONS = ['every CFG path is assumed feasible', 'core ascii helpers trusted']
@@ -32,6 +34,9 @@ def names(fn):
 
 
 def check(R, F):
+    from rules.name_rules import check_case_folding_callers
+    check_case_folding_callers(R, F)
+
     from rules.name_rules import check_label_suffix
     check_label_suffix(R, F)
 
